@@ -4,8 +4,9 @@ import DnsVerif.Lemmas.SafeCyclic
 /-! # Safety / cost of records, questions, flags, messages and the nine entry points; main theorems
 
 * C01 (no panic): `decodeX_noPanic`;
-* C07 (termination, bounded work): `decodeX_noFuel`, `decodeX_cost` (`costBound`),
-  `decodeName_terminates_cyclic`;
+* C07 (termination, bounded work): `decodeX_noFuel`, `decodeX_cost` (`costBound`, accepting runs; for ALL
+  runs, failing ones included, see `decodeXC_le` in `SafeRunMsg.lean`), `decodeName_terminates_cyclic`,
+  `decodeName_cyclic_error`;
 * locality half of C09: the `*_safe` lemmas (the cursor never leaves the window: `D.Ok d'` with
   `d'.lim = d.lim`) and the `*_within` lemmas of `SafeCost.lean`. -/
 
@@ -208,6 +209,13 @@ theorem decodeQType_noFuel {b : Bytes} (h : b.length < 2 ^ 63) : decodeQType b â
   (decodeQType_post h).spec.2.1
 theorem decodeQClass_noFuel {b : Bytes} (h : b.length < 2 ^ 63) : decodeQClass b â‰  .error .fuel :=
   (decodeQClass_post h).spec.2.1
+
+/-- started at offset 0, `Decoder::dns` never reports `Offset` (no callee reports it either) -/
+theorem decMsg_noOffset {d : D} (hd : D.Ok d) (h0 : d.off = 0) : decMsg d â‰  .error .offset := by
+  intro he
+  have hp := decMsg_post hd h0
+  rw [he] at hp
+  cases hp
 
 /-- `Decoder::dns` is always started at offset 0, so `DecodeError::Offset` is unreachable -/
 theorem decodeDns_noOffset {b : Bytes} (h : b.length < 2 ^ 63) : decodeDns b â‰  .error .offset := by
